@@ -42,6 +42,9 @@ type FifoCase struct {
 	// RunEvery > 0 runs the engine after every RunEvery enqueue rounds
 	Chunk    int `json:"chunk"`
 	RunEvery int `json:"run_every"`
+	// ShareCO: queues (also of different contexts) launch the same code object value when
+	// their kernels have the same constants
+	ShareCO bool `json:"share_co"`
 }
 
 func genFifoCase(t *rapid.T) FifoCase {
@@ -78,6 +81,7 @@ func genFifoCase(t *rapid.T) FifoCase {
 	}
 	c.Chunk = rapid.IntRange(1, 3).Draw(t, "chunk")
 	c.RunEvery = rapid.SampledFrom([]int{0, 0, 1, 2}).Draw(t, "runevery")
+	c.ShareCO = rapid.Bool().Draw(t, "shareco")
 	return c
 }
 
@@ -130,6 +134,8 @@ func scaleKernel(mul, add uint32) *insts.KernelCodeObject {
 
 type scaleArgs struct{ In, Out driver.Ptr }
 
+var dbgQueues func([]*driver.CommandQueue)
+
 // RunFifoCase executes one history.
 func RunFifoCase(c FifoCase) (res stats.Result) {
 	mode := "emu"
@@ -174,6 +180,19 @@ func RunFifoCase(c FifoCase) (res stats.Result) {
 		ctxQueues[qu.Ctx]++
 	}
 	kernels := 0
+	coCache := map[[2]uint32]*insts.KernelCodeObject{}
+	kernelFor := func(mul, add uint32) *insts.KernelCodeObject {
+		if !c.ShareCO {
+			return scaleKernel(mul, add)
+		}
+		if co, ok := coCache[[2]uint32{mul, add}]; ok {
+			res.Labels = append(res.Labels, "code-object-reused")
+			return co
+		}
+		co := scaleKernel(mul, add)
+		coCache[[2]uint32{mul, add}] = co
+		return co
+	}
 	allQueues := func() []*driver.CommandQueue {
 		var out []*driver.CommandQueue
 		for _, st := range qs {
@@ -205,7 +224,7 @@ func RunFifoCase(c FifoCase) (res stats.Result) {
 					}
 					st.model[cmd.Dst] = out
 					kernels++
-					d.EnqueueLaunchKernel(st.q, scaleKernel(cmd.Mul, cmd.Add), [3]uint32{uint32(c.N), 1, 1}, [3]uint16{64, 1, 1},
+					d.EnqueueLaunchKernel(st.q, kernelFor(cmd.Mul, cmd.Add), [3]uint32{uint32(c.N), 1, 1}, [3]uint16{64, 1, 1},
 						&scaleArgs{In: st.bufs[cmd.Src], Out: st.bufs[cmd.Dst]})
 				case "d2h":
 					got := make([]uint32, c.N)
@@ -239,6 +258,9 @@ func RunFifoCase(c FifoCase) (res stats.Result) {
 		}
 	}
 	if err := pl.Run(allQueues()...); err != nil {
+		if dbgQueues != nil {
+			dbgQueues(allQueues())
+		}
 		return fail("final run fails: %v", err)
 	}
 	multiCtxSameGPU := false
